@@ -200,6 +200,7 @@ type env struct {
 	trace   []obs
 	nt      bool
 	extra   []string // ids of the transactions of "burst" events
+	stamp   bool     // hist.Stamp
 }
 
 func newEnv() (*env, error) {
@@ -229,6 +230,17 @@ func newEnv() (*env, error) {
 func (e *env) close() {
 	e.clk.dead.Store(true)
 	e.clk.Advance(1000 * time.Hour)
+}
+
+// writePol writes a revision of policies.yaml the way the case deploys its files.
+func (e *env) writePol(b []byte) error {
+	if err := os.WriteFile(polPath, b, 0o644); err != nil {
+		return err
+	}
+	if e.stamp {
+		return os.Chtimes(polPath, start, start)
+	}
+	return nil
 }
 
 func (e *env) marker() string {
@@ -399,7 +411,7 @@ func (e *env) apply(how string, endpoint bool) (added []string, err error, ierr 
 		}
 	case "file": // policies.yaml rewritten, then ReloadFromFile (POST /apply_policies without a body)
 		m := e.marker()
-		if werr := os.WriteFile(polPath, render(m, endpoint), 0o644); werr != nil {
+		if werr := e.writePol(render(m, endpoint)); werr != nil {
 			return nil, nil, infra("%v", werr)
 		}
 		err = e.acc.ReloadFromFile()
@@ -417,7 +429,7 @@ func (e *env) apply(how string, endpoint bool) (added []string, err error, ierr 
 			e.loaded = m
 		}
 	case "bad": // unreadable policies.yaml: the reload must fail and change nothing
-		if werr := os.WriteFile(polPath, []byte("global: [unclosed\n  - {"), 0o644); werr != nil {
+		if werr := e.writePol([]byte("global: [unclosed\n  - {")); werr != nil {
 			return nil, nil, infra("%v", werr)
 		}
 		if err = e.acc.ReloadFromFile(); err == nil {
@@ -498,6 +510,10 @@ type event struct {
 type hist struct {
 	IDs    []string `json:"ids"`
 	Events []event  `json:"events"`
+	// Stamp: every revision of policies.yaml carries the same modification time (files deployed with preserved
+	// or normalised time stamps: cp -p, rsync -t, archives, reproducible artefacts); revisions v1..v9, v10..v99
+	// have the same size anyway
+	Stamp bool `json:"same_mtime,omitempty"`
 }
 
 type failure struct {
@@ -506,6 +522,13 @@ type failure struct {
 }
 
 func (e *env) run(h hist, probe bool) error {
+	if h.Stamp {
+		e.stamp = true
+		e.classes["case:every revision of policies.yaml with the same modification time"]++
+		if err := os.Chtimes(polPath, start, start); err != nil {
+			return infra("%v", err)
+		}
+	}
 	for i, v := range h.Events {
 		var err error
 		switch v.K {
@@ -625,7 +648,7 @@ func genHist(maxEvents int) *rapid.Generator[hist] {
 			}
 		}
 		ids := rapid.SliceOfNDistinct(genID, txns, txns, func(s string) string { return s }).Draw(t, "ids")
-		return hist{IDs: ids, Events: evs}
+		return hist{IDs: ids, Events: evs, Stamp: rapid.IntRange(0, 2).Draw(t, "stamp") == 1}
 	})
 }
 
